@@ -19,6 +19,8 @@ fn announce(n: usize) {
 
 /// bookkeeping shared by the traversal harnesses
 pub struct Walk<const N: usize> {
+    /// a `None` has been seen: every later item violates fusedness / means a premature `None`
+    pub ended: bool,
     pub steps: usize,
     pub last: Option<P>,
     pub seen_q: usize,
@@ -28,6 +30,7 @@ pub struct Walk<const N: usize> {
 impl<const N: usize> Walk<N> {
     pub fn new() -> Self {
         Self {
+            ended: false,
             steps: 0,
             last: None,
             seen_q: 0,
@@ -36,6 +39,7 @@ impl<const N: usize> Walk<N> {
     }
     /// account for one yielded item `(p, v)`; `sel(i)`: slot i belongs to the expected result set
     pub fn item<S: Src>(&mut self, s: &mut S, nodes: &[Raw; N], r: &[bool; N], p: &P, v: u8, q: &P) {
+        check!(s, !self.ended, "C03,C10:no item after the iterator returned None (no premature None, fused)");
         let at = lookup(nodes, r, p);
         check!(s, at.is_some() && nodes[at.unwrap_or(0)].0 == *p && nodes[at.unwrap_or(0)].1 == Some(v), "C03,C18:yielded item is a stored entry (stored bytes, current value)");
         if let Some(lp) = self.last {
@@ -67,7 +71,7 @@ pub fn whole<S: Src, const KIND: u8, const N: usize>(s: &mut S) {
             it.__verif_rehome(N + 1);
             let mut k = 0;
             while k < N {
-                if let Some((p, v)) = it.next() {
+                if let Some((p, v)) = { let x = it.next(); if x.is_none() { w.ended = true; } x } {
                     w.item(s, &nodes, &r, p, *v, &q);
                 }
                 k += 1;
@@ -83,7 +87,7 @@ pub fn whole<S: Src, const KIND: u8, const N: usize>(s: &mut S) {
                 it.__verif_rehome(N + 1);
                 let mut k = 0;
                 while k < N {
-                    if let Some((p, v)) = it.next() {
+                    if let Some((p, v)) = { let x = it.next(); if x.is_none() { w.ended = true; } x } {
                         w.item(s, &nodes, &r, p, *v, &q);
                         addrs[k] = v as *mut u8 as *const u8;
                         refs[k] = Some(v);
@@ -134,7 +138,7 @@ pub fn whole<S: Src, const KIND: u8, const N: usize>(s: &mut S) {
             it.__verif_rehome(N + 1);
             let mut k = 0;
             while k < N {
-                if let Some((p, v)) = it.next() {
+                if let Some((p, v)) = { let x = it.next(); if x.is_none() { w.ended = true; } x } {
                     w.item(s, &nodes, &r, &p, v, &q);
                 }
                 k += 1;
@@ -210,7 +214,7 @@ pub fn children<S: Src, const KIND: u8, const N: usize>(s: &mut S) {
             it.__verif_rehome(N + 1);
             let mut k = 0;
             while k < N {
-                if let Some((p, v)) = it.next() {
+                if let Some((p, v)) = { let x = it.next(); if x.is_none() { w.ended = true; } x } {
                     check!(s, covers(&sel, p), "C10:children item is covered by the selector");
                     w.item(s, &nodes, &r, p, *v, &q);
                 }
@@ -225,7 +229,7 @@ pub fn children<S: Src, const KIND: u8, const N: usize>(s: &mut S) {
             let wv = s.u8();
             let mut k = 0;
             while k < N {
-                if let Some((p, v)) = it.next() {
+                if let Some((p, v)) = { let x = it.next(); if x.is_none() { w.ended = true; } x } {
                     check!(s, covers(&sel, p), "C10,C13:children_mut item is covered by the selector");
                     w.item(s, &nodes, &r, p, *v, &q);
                     *v = wv;
@@ -245,7 +249,7 @@ pub fn children<S: Src, const KIND: u8, const N: usize>(s: &mut S) {
             it.__verif_rehome(N + 1);
             let mut k = 0;
             while k < N {
-                if let Some((p, v)) = it.next() {
+                if let Some((p, v)) = { let x = it.next(); if x.is_none() { w.ended = true; } x } {
                     check!(s, covers(&sel, &p), "C10:into_children item is covered by the selector");
                     w.item(s, &nodes, &r, &p, v, &q);
                 }
